@@ -401,6 +401,27 @@ def _fab_line_rule(fi, offsets_name, h0=None):
             if src is None or len(wr.args) != 1 or norm(wr.args[0]) not in forms:
                 continue
             got.append((n.lineno, norm(n.value.args[0])))
+    # second form: the rebuilt line in one expression — ' '.join(L.split()[:-1] + [str(X)]) + '\n'
+    for blk in _blocks(fi.node):
+        for i, n in enumerate(blk):
+            c = n.value if isinstance(n, ast.Expr) else None
+            if not (isinstance(c, ast.Call) and isinstance(c.func, ast.Attribute) and c.func.attr == "write" and len(c.args) == 1):
+                continue
+            m = re.fullmatch(r"f\"\{' '\.join\((\w+)\.split\(\)\[:-1\] \+ \[(f'\{.+\}')\]\)\}\\n\"|"
+                             r"f'\{' '\.join\((\w+)\.split\(\)\[:-1\] \+ \[(f'\{.+\}')\]\)\}\\n'", norm(c.args[0]))
+            if not m:
+                continue
+            line = m.group(1) or m.group(3)
+            val = m.group(2) or m.group(4)
+            # the line variable's nearest preceding binding in this block (or an enclosing one) reads the first source
+            src = None
+            for blk2 in _blocks(fi.node):
+                for mm in blk2:
+                    if isinstance(mm, ast.Assign) and norm(mm.targets[0]) == line and norm(mm.value).endswith(".readline()"):
+                        src = norm(mm.value)[:-len(".readline()")] if src in (None, norm(mm.value)[:-len(".readline()")]) else "?"
+            if src is None or (h0 is not None and src != h0):
+                return False
+            got.append((n.lineno, val))
     got = [t for _, t in sorted(got)]
     return got == ["f'{%s[0]}'" % offsets_name, "f'{%s}'" % loopvars[0]]
 
